@@ -153,7 +153,7 @@ func (globber *Globber) glob(rootPath string, glob string, excludes []string, in
 		if isInDirectories(m, walkedDir.subPackages) {
 			continue
 		}
-		if !includeHidden && isHidden(m) {
+		if !includeHidden && isHidden(rootPath, m) {
 			continue
 		}
 
@@ -276,8 +276,17 @@ func isInDirectories(name string, directories []string) bool {
 	return false
 }
 
-// isHidden checks if the file is a hidden file i.e. starts with . or, starts and ends with #.
-func isHidden(name string) bool {
+// isHidden checks if the file is a hidden file i.e. starts with . or, starts and ends with #, or is
+// somewhere inside a hidden directory. Only the part of the name below root is looked at.
+func isHidden(root, name string) bool {
 	file := filepath.Base(name)
-	return strings.HasPrefix(file, ".") || (strings.HasPrefix(file, "#") && strings.HasSuffix(file, "#"))
+	if strings.HasPrefix(file, "#") && strings.HasSuffix(file, "#") {
+		return true
+	}
+	for _, part := range strings.Split(strings.TrimPrefix(name, root+"/"), "/") {
+		if strings.HasPrefix(part, ".") {
+			return true
+		}
+	}
+	return false
 }
